@@ -131,7 +131,7 @@ func runC07(c *Ctx) {
 		c07Run(c, wrap.Case)
 		return
 	}
-	files, _ := filepathGlob("/verif/harness/corpus/C07/*.json")
+	files, _ := filepathGlob(verifRoot + "/harness/corpus/C07/*.json")
 	for _, f := range files {
 		var wrap struct{ Case c07Case `json:"case"` }
 		b, err := osReadFile(f)
